@@ -106,9 +106,141 @@ func c19ErrorGates(c *eng.Ctx, fn *ssa.Function, w *ssa.Call, after func(ssa.Ins
 		}
 	}
 	if !tested {
+		// never compared: the outcome still gates the acknowledgement when the function hands
+		// the call's own error on (`return s.save(x)`, `err := w(); return err`): every return
+		// reached from the call carries it
+		if errIdx >= 0 {
+			nRet := 0
+			bad := eng.ReachAfter(w, eng.PathQuery{Target: func(x ssa.Instruction) bool {
+				ret, ok := x.(*ssa.Return)
+				if !ok || ret.Block() == fn.Recover {
+					return false
+				}
+				nRet++
+				ev := c13Returned(ret, errIdx)
+				return ev == nil || eng.IsNilConst(ev) || !sa.DerivesFrom(ev, isErr)
+			}})
+			if bad == nil && nRet > 0 {
+				return ""
+			}
+		}
 		return "the call's error is never compared with nil"
 	}
 	return ""
+}
+
+// c19NilReturn matches the returns of fn that report success (a nil constant as error result).
+func c19NilReturn(fn *ssa.Function) func(ssa.Instruction) bool {
+	errIdx := c13ErrIdx(fn)
+	return func(x ssa.Instruction) bool {
+		ret, ok := x.(*ssa.Return)
+		if !ok {
+			return false
+		}
+		ev := c13Returned(ret, errIdx)
+		return ev != nil && eng.IsNilConst(ev)
+	}
+}
+
+// c19AckGate decides "anchor reports success only if call w succeeded" when w sits in anchor
+// or in a helper of its Region: the error gates the nil return of the function that holds w,
+// and — when that is a helper — every call of the helper inside the Region gates in turn the
+// nil return of its caller, up to anchor. It returns "" or the reason.
+func c19AckGate(c *eng.Ctx, anchor *ssa.Function, region map[*ssa.Function]bool, w *ssa.Call, depth int) string {
+	g := w.Parent()
+	if c13ErrIdx(g) < 0 {
+		return eng.FuncName(g) + " has no error result: the failure cannot reach the caller"
+	}
+	if why := c19ErrorGates(c, g, w, c19NilReturn(g), "a nil-error return"); why != "" {
+		return why
+	}
+	if g == anchor {
+		return ""
+	}
+	sites := c.W.GuardSites(g)
+	if len(sites) == 0 || depth <= 0 {
+		return "the callers of " + eng.FuncName(g) + " are not completely known"
+	}
+	n := 0
+	for _, s := range sites {
+		if !region[s.Parent()] {
+			continue // another entry point using the same helper
+		}
+		n++
+		sc, ok := s.(*ssa.Call)
+		if !ok || sc.Call.StaticCallee() != g {
+			return eng.FuncName(g) + " is started with go/defer or handed on as a callback: its error is lost"
+		}
+		if why := c19AckGate(c, anchor, region, sc, depth-1); why != "" {
+			return why
+		}
+	}
+	if n == 0 {
+		return eng.FuncName(g) + " is not called from " + eng.FuncName(anchor)
+	}
+	return ""
+}
+
+// c19FuncArgs returns the functions handed to a call as values: function literals, method
+// values (`w.tryWrite`, resolved to the method) and named functions.
+func c19FuncArgs(w *eng.World, ci ssa.CallInstruction) []*ssa.Function {
+	var out []*ssa.Function
+	for _, a := range ci.Common().Args {
+		if _, isSig := a.Type().Underlying().(*types.Signature); !isSig {
+			continue
+		}
+		if f := w.FuncOfValue(a); f != nil && f.Blocks != nil {
+			out = append(out, f)
+		}
+	}
+	return out
+}
+
+// c19Contains reports whether fn, its closures, the functions it hands on as values, or the
+// repository functions it calls statically (to the given depth) contain a call satisfying
+// pred. It is c13ContainsCall made insensitive to the form of a callback: a function literal,
+// a method value of a small state struct, or a named function.
+func c19Contains(w *eng.World, fn *ssa.Function, pred func(ssa.CallInstruction) bool, depth int, seen map[*ssa.Function]bool) bool {
+	if fn == nil || fn.Blocks == nil || seen[fn] {
+		return false
+	}
+	seen[fn] = true
+	defer delete(seen, fn)
+	for _, f := range eng.WithClosures(fn) {
+		for _, ci := range eng.Calls(f) {
+			if pred(ci) {
+				return true
+			}
+			for _, g := range c19FuncArgs(w, ci) {
+				if g.Parent() == nil && c19Contains(w, g, pred, depth, seen) {
+					return true
+				}
+			}
+			if depth > 0 {
+				if g := eng.CalleeFn(ci); g != nil && g != fn && g.Pkg != nil && eng.IsRepoPkg(g.Pkg.Pkg.Path()) && c19Contains(w, g, pred, depth-1, seen) {
+					return true
+				}
+			}
+		}
+	}
+	return false
+}
+
+// c19Performs reports whether executing call ci performs a call satisfying pred: directly,
+// inside a function value it receives, or inside the repository function it calls.
+func c19Performs(w *eng.World, ci ssa.CallInstruction, pred func(ssa.CallInstruction) bool, depth int) bool {
+	if pred(ci) {
+		return true
+	}
+	for _, fn := range c19FuncArgs(w, ci) {
+		if c19Contains(w, fn, pred, depth, map[*ssa.Function]bool{}) {
+			return true
+		}
+	}
+	if g := eng.CalleeFn(ci); g != nil && g.Pkg != nil && eng.IsRepoPkg(g.Pkg.Pkg.Path()) {
+		return c19Contains(w, g, pred, depth, map[*ssa.Function]bool{})
+	}
+	return false
 }
 
 func c19Is(target ssa.Instruction) func(ssa.Instruction) bool {
@@ -142,7 +274,7 @@ func c19ListLoops(c *eng.Ctx, fn *ssa.Function, isList func(ssa.Value) bool) []*
 func c19(c *eng.Ctx) {
 	defer c19Fresh(c)
 	c.Rule("R1", "write-through order in objectStore.Save: on every path that does not take the syncPeriod != 0 edge the API write (createOrUpdate) precedes the write to the local store, the local write is reachable from the API write only over its err == nil edge, and the failure edge returns that error. Otherwise a condition is acknowledged (and served from memory) that a crash or an API fault loses", 2)
-	c.Rule("R2", "createOrUpdate: the function retried by ExponentialBackoff returns done=true only together with the own error of the last API write on that path (nil ⇒ persisted), `err == nil` of Create, or under a nil-error guard; a conflict retries; createOrUpdate returns the backoff's error. `return true, nil` on a conflict would acknowledge an update that was never written", 3)
+	c.Rule("R2", "createOrUpdate: the function retried by ExponentialBackoff returns done=true only together with the own error of the last API write on that path (nil ⇒ persisted), `err == nil` of Create, or under a nil-error guard; a conflict retries; createOrUpdate returns the backoff's error. `return true, nil` on a conflict would acknowledge an update that was never written", 2) // ≥ one return of the retried function + the hand-over of the backoff's error (an attempt that forwards to a tuple-returning helper has a single return)
 	c.Rule("R3", "delete order: in Delete and DeleteUpstream the API delete (NotFound tolerated, every other error returned) precedes the local delete, which is reachable only over the err == nil edge; DeleteUpstream API-deletes every listed condition of the upstream before dropping it locally. A local-first delete that then fails (or crashes) leaves a persisted condition that the next leader loads again", 10)
 	c.Rule("R4", "flush on stop: in objectStore.Stop closing stopCh, stopping the local store and setting stopped are control-dependent on the flush (doSyncLocked) having returned nil; the flush lists every local condition, API-writes every own-shard item and returns the first error instead of continuing. Otherwise a graceful stop in periodic mode drops pending conditions", 8)
 	c.Rule("R5", "shard filter of the API-backed store (= C13.R4): Save refuses and Load skips conditions of other shards, Load stores every listed own-shard condition and fails when the list fails", 7)
@@ -168,7 +300,7 @@ func c19(c *eng.Ctx) {
 	performers := func(fn *ssa.Function, pred func(ssa.CallInstruction) bool, depth int) []*ssa.Call {
 		var out []*ssa.Call
 		for _, ci := range eng.Calls(fn) {
-			if call, ok := ci.(*ssa.Call); ok && c13Performs(ci, pred, depth) {
+			if call, ok := ci.(*ssa.Call); ok && c19Performs(c.W, ci, pred, depth) {
 				out = append(out, call)
 			}
 		}
@@ -200,164 +332,329 @@ type c19InSet = func([]*ssa.Call) func(ssa.Instruction) bool
 
 // ---- R1 ---------------------------------------------------------------------------------
 
+// c19WriteThroughPaths enumerates the paths of objectStore.Save in write-through mode by
+// forcing: every load of objectStore.syncPeriod yields 0, same-package callees are followed
+// (so it does not matter whether the mode test sits in Save, in a helper that returns the
+// object to keep, or in a predicate), errors made by fmt.Errorf / errors.New are non-nil.
+// isEvent recognises the API write on a path: the invocation itself, or the call that hands a
+// function performing it to the retry helper (which runs it at least once).
+func c19WriteThroughPaths(c *eng.Ctx, save *ssa.Function, isAPIWrite func(ssa.CallInstruction) bool) (paths []eng.PathResult, isEvent func(ssa.CallInstruction) bool, consulted bool, err error) {
+	return c19SavePaths(c, save, isAPIWrite, 0)
+}
+
+// c19SavePaths enumerates the paths of Save with every load of syncPeriod yielding period.
+func c19SavePaths(c *eng.Ctx, save *ssa.Function, isAPIWrite func(ssa.CallInstruction) bool, period int64) (paths []eng.PathResult, isEvent func(ssa.CallInstruction) bool, consulted bool, err error) {
+	in := &eng.Interp{W: c.W, Depth: eng.LiftDepth + 2, MaxPaths: 1 << 14,
+		PinLoad: func(ld *ssa.UnOp, _ string) (eng.AV, bool) {
+			if eng.FieldAddrOf(ld.X, c13TObjectStore, "syncPeriod") {
+				consulted = true
+				return eng.AVInt(period), true
+			}
+			return eng.AV{}, false
+		},
+		PinCall: c19PinErrors(nil),
+	}
+	memo := map[ssa.CallInstruction]bool{}
+	isEvent = func(ci ssa.CallInstruction) bool {
+		if v, ok := memo[ci]; ok {
+			return v
+		}
+		v := isAPIWrite(ci)
+		if g := eng.CalleeFn(ci); !v && (g == nil || g.Pkg == nil || !eng.IsRepoPkg(g.Pkg.Pkg.Path())) {
+			for _, f := range c19FuncArgs(c.W, ci) {
+				v = v || c19Contains(c.W, f, isAPIWrite, eng.LiftDepth, map[*ssa.Function]bool{})
+			}
+		}
+		memo[ci] = v
+		return v
+	}
+	paths, err = in.Run(save, nil)
+	return
+}
+
 func c19R1(c *eng.Ctx, local c19Local, performers c19Performers, inSet c19InSet, isAPIWrite func(ssa.CallInstruction) bool) {
 	save := c.MustMethod(pkgRLStoreK8s, "objectStore", "Save")
 	if save == nil {
 		return
 	}
-	writes := performers(save, isAPIWrite, 2)
+	writes := performers(save, isAPIWrite, eng.LiftDepth)
+	// the local write may sit in Save or in a helper that is part of it
 	var locals []ssa.Instruction
-	eng.Instrs(save, func(x ssa.Instruction) {
-		if local("Save")(x) {
-			locals = append(locals, x)
-		}
-	})
+	for _, f := range c.W.Region(save) {
+		eng.Instrs(f, func(x ssa.Instruction) {
+			if local("Save")(x) {
+				locals = append(locals, x)
+			}
+		})
+	}
 	if len(writes) == 0 {
 		c.Fail("R1", save, "API write before the local write", save.Pos(), "Save performs no API write at all")
 	}
 	if len(locals) == 0 {
 		c.Fail("R1", save, "API write before the local write", save.Pos(), "Save never writes the local store")
 	}
-	// the edge on which the store is in periodic mode (syncPeriod != 0)
-	periodic := func(from *ssa.BasicBlock, si int) bool {
-		iff, ok := from.Instrs[len(from.Instrs)-1].(*ssa.If)
-		if !ok {
-			return false
-		}
-		r := eng.RelOf(iff.Cond, si == 0)
-		x, y, op := r.X, r.Y, r.Op
-		if eng.FieldLoadOf(y, c13TObjectStore, "syncPeriod") {
-			x, y, op = y, x, eng.FlipOp(op)
-		}
-		z, isInt := eng.IntConst(y)
-		return eng.FieldLoadOf(x, c13TObjectStore, "syncPeriod") && isInt && z == 0 && (op == token.NEQ || op == token.GTR || op == token.LSS)
-	}
+	// write-through order, decided on the paths that are feasible with syncPeriod == 0
+	paths, isEvent, _, err := c19WriteThroughPaths(c, save, isAPIWrite)
 	for k, l := range locals {
-		x := eng.ReachFromEntry(save, eng.PathQuery{Target: c19Is(l), Avoid: inSet(writes), BlockEdge: periodic})
-		c.Check("R1", save, fmt.Sprintf("write-through: API write before local write#%d", k+1), l.Pos(), x == nil,
+		construct := fmt.Sprintf("write-through: API write before local write#%d", k+1)
+		if err != nil {
+			c.Undecided("R1", save, construct, l.Pos(), "the paths of Save cannot be enumerated: "+err.Error())
+			continue
+		}
+		ok, cut, met := true, false, false
+		for _, pr := range paths {
+			written := false
+			for _, ci := range pr.Calls {
+				if isEvent(ci) {
+					written = true
+				}
+				if ci == l.(ssa.CallInstruction) {
+					met = true
+					if !written {
+						ok = false
+					}
+					cut = cut || pr.LoopCut
+				}
+			}
+		}
+		if !met {
+			// not executed in write-through mode: fine for a write of the periodic mode only —
+			// which must then show up on the paths with syncPeriod != 0
+			periodic, _, _, perr := c19SavePaths(c, save, isAPIWrite, 1)
+			for _, pr := range periodic {
+				for _, ci := range pr.Calls {
+					met = met || ci == l.(ssa.CallInstruction)
+				}
+			}
+			if perr != nil || !met {
+				c.Undecided("R1", save, construct, l.Pos(), "the local write is not met on any enumerated path of Save (too deep, or behind a loop)")
+				continue
+			}
+		}
+		if ok && cut {
+			c.Undecided("R1", save, construct, l.Pos(), "the local write sits in a loop: its paths cannot be enumerated")
+			continue
+		}
+		c.Check("R1", save, construct, l.Pos(), ok,
 			"a path reaches the local write without the API write and without taking the syncPeriod != 0 edge: the caller is acknowledged and later readers see a condition that a crash loses")
 	}
 	for k, w := range writes {
 		why := c19ErrorGates(c, save, w, func(x ssa.Instruction) bool { return local("Save")(x) }, "the local write")
+		if why == "" {
+			// a local write that moved into a helper called after w is found by the lifted predicate
+			lifted := eng.LiftMay(func(x ssa.Instruction) bool { return local("Save")(x) })
+			why = c19ErrorGates(c, save, w, func(x ssa.Instruction) bool { return x != ssa.Instruction(w) && lifted(x) }, "the local write")
+		}
 		c.Check("R1", save, fmt.Sprintf("API write#%d: error ⇒ returned, no local write", k+1), w.Pos(), why == "", c13Why("the API write's outcome must gate the local write and the acknowledgement", why))
 	}
 }
 
 // ---- R2 ---------------------------------------------------------------------------------
 
-func c19R2(c *eng.Ctx, isAPIWrite func(ssa.CallInstruction) bool) {
-	cu := c.MustMethod(pkgRLStoreK8s, "objectStore", "createOrUpdate")
-	if cu == nil {
-		return
-	}
-	var backoff *ssa.Call
-	var retried *ssa.Function
-	for _, ci := range eng.Calls(cu) {
-		call, ok := ci.(*ssa.Call)
-		if !ok || !c19ReturnsError(call) {
-			continue
-		}
-		for _, fn := range c13ClosureArgs(ci) {
-			if c13ContainsCall(fn, isAPIWrite, 0) {
-				backoff, retried = call, fn
-			}
-		}
-	}
-	if backoff == nil {
-		c.Fail("R2", cu, "retried function", cu.Pos(), "createOrUpdate no longer hands a function literal performing the API write to a retry helper")
-		return
-	}
-	var writes []*ssa.Call
-	for _, ci := range eng.Calls(retried) {
-		if call, ok := ci.(*ssa.Call); ok && isAPIWrite(ci) {
-			writes = append(writes, call)
-		}
-	}
-	ownErr := func(v ssa.Value) *ssa.Call {
-		for _, w := range writes {
-			if c19ErrMatcher(w)(v) {
-				return w
-			}
-		}
-		return nil
-	}
-	// w is the last API write executed before ret on every path through w
-	latest := func(w *ssa.Call, ret ssa.Instruction) bool {
-		for _, w2 := range writes {
-			if w2 == w {
+// c19Retry is one place where an API write is retried: function `in` hands `retried` — a
+// function literal, a method value or a named function performing the write — to the error
+// returning call `backoff`.
+type c19Retry struct {
+	in      *ssa.Function
+	backoff *ssa.Call
+	retried *ssa.Function
+}
+
+// c19FindRetries locates the retried API writes of the store package by what they do. The
+// method named createOrUpdate is the primary anchor; when it is gone (renamed, merged) every
+// function of the package with that role is taken.
+func c19FindRetries(c *eng.Ctx, isAPIWrite func(ssa.CallInstruction) bool) []c19Retry {
+	scan := func(fn *ssa.Function) []c19Retry {
+		var out []c19Retry
+		for _, ci := range eng.Calls(fn) {
+			call, ok := ci.(*ssa.Call)
+			if !ok || !c19ReturnsError(call) || isAPIWrite(ci) {
 				continue
 			}
-			if eng.ReachAfter(w, eng.PathQuery{Target: c19Is(w2)}) != nil && eng.ReachAfter(w2, eng.PathQuery{Target: c19Is(ret)}) != nil {
-				return false
+			if g := eng.CalleeFn(ci); g != nil && g.Pkg != nil && eng.IsRepoPkg(g.Pkg.Pkg.Path()) {
+				continue // a repository function taking a callback is not the retry helper itself
+			}
+			for _, f := range c19FuncArgs(c.W, ci) {
+				if c19Contains(c.W, f, isAPIWrite, eng.LiftDepth, map[*ssa.Function]bool{}) {
+					out = append(out, c19Retry{fn, call, f})
+				}
 			}
 		}
-		return true
+		return out
 	}
-	if retried.Signature.Results().Len() != 2 {
-		c.Fail("R2", retried, "retried function", retried.Pos(), "the retried function is not a (done bool, err error) condition")
+	if cu := c.W.Method(pkgRLStoreK8s, "objectStore", "createOrUpdate"); cu != nil && cu.Blocks != nil {
+		if rs := scan(cu); len(rs) > 0 {
+			return rs
+		}
+	}
+	var out []c19Retry
+	for _, fn := range c.W.FuncsOf(pkgRLStoreK8s) {
+		out = append(out, scan(fn)...)
+	}
+	return out
+}
+
+// c19APIWritesOf lists the API write invocations that executing fn may perform itself or in
+// the same-package functions it calls (depth ≤ LiftDepth): the calls an attempt consists of.
+func c19APIWritesOf(fn *ssa.Function, isAPIWrite func(ssa.CallInstruction) bool) []*ssa.Call {
+	var out []*ssa.Call
+	seen := map[*ssa.Function]bool{}
+	var rec func(f *ssa.Function, depth int)
+	rec = func(f *ssa.Function, depth int) {
+		if f == nil || f.Blocks == nil || seen[f] {
+			return
+		}
+		seen[f] = true
+		for _, g := range eng.WithClosures(f) {
+			for _, ci := range eng.Calls(g) {
+				call, ok := ci.(*ssa.Call)
+				if !ok {
+					continue
+				}
+				if isAPIWrite(ci) {
+					out = append(out, call)
+				} else if h := call.Call.StaticCallee(); h != nil && depth > 0 && h.Pkg != nil && eng.IsRepoPkg(h.Pkg.Pkg.Path()) {
+					rec(h, depth-1)
+				}
+			}
+		}
+	}
+	rec(fn, eng.LiftDepth)
+	return out
+}
+
+// c19PinErrors builds the PinCall hook of a forced run: the error result of every call in
+// outcome is fixed to nil / non-nil, and errors that are non-nil by construction
+// (fmt.Errorf, errors.New) are known to be so.
+func c19PinErrors(outcome map[*ssa.Call]bool) func(*ssa.Call, int, *eng.State) (eng.AV, bool) {
+	return func(call *ssa.Call, idx int, _ *eng.State) (eng.AV, bool) {
+		if c13FreshError(call) && idx == -1 {
+			return eng.AV{K: eng.NonNilV}, true
+		}
+		failed, ok := outcome[call]
+		if !ok {
+			return eng.AV{}, false
+		}
+		n := 1
+		if t, isT := call.Type().(*types.Tuple); isT {
+			n = t.Len()
+		}
+		if (n == 1 && idx == -1) || (n > 1 && idx == n-1) {
+			if failed {
+				return eng.AV{K: eng.NonNilV}, true
+			}
+			return eng.AV{K: eng.NilV}, true
+		}
+		return eng.AV{}, false
+	}
+}
+
+func c19R2(c *eng.Ctx, isAPIWrite func(ssa.CallInstruction) bool) {
+	retries := c19FindRetries(c, isAPIWrite)
+	if len(retries) == 0 {
+		cu := c.MustMethod(pkgRLStoreK8s, "objectStore", "createOrUpdate")
+		c.Fail("R2", cu, "retried function", 0, "createOrUpdate no longer hands a function performing the API write to a retry helper")
 		return
 	}
-	n := 0
-	for _, b := range retried.Blocks {
-		ret, ok := b.Instrs[len(b.Instrs)-1].(*ssa.Return)
-		if !ok {
+	for ri, rt := range retries {
+		cu, backoff, retried := rt.in, rt.backoff, rt.retried
+		sfx := ""
+		if ri > 0 {
+			sfx = fmt.Sprintf(" (retry#%d)", ri+1)
+		}
+		if retried.Signature.Results().Len() != 2 {
+			c.Fail("R2", retried, "retried function"+sfx, retried.Pos(), "the retried function is not a (done bool, err error) condition")
 			continue
 		}
-		n++
-		construct := fmt.Sprintf("return#%d: done ⇒ the API write's own outcome", n)
-		done, errv := c13Returned(ret, 0), c13Returned(ret, 1)
-		switch {
-		case eng.IsBoolConst(done, false):
-			c.Pass("R2", retried, construct, ret.Pos(), "not done: the backoff retries or gives up with an error")
-		case eng.IsBoolConst(done, true):
-			if w := ownErr(errv); w != nil {
-				c.Check("R2", retried, construct, ret.Pos(), latest(w, ret), "done is reported with the error of an API write that is not the last one executed on the path")
-			} else if eng.IsNilConst(errv) {
-				ok := false
-				for _, w := range writes {
-					if eng.GuardedByNil(ret, c19ErrMatcher(w), true) && latest(w, ret) {
-						ok = true
-					}
-				}
-				c.Check("R2", retried, construct, ret.Pos(), ok, "`return true, nil` that is not on the err == nil edge of the API write: the retry loop stops and createOrUpdate reports success although nothing was persisted (e.g. after a conflict)")
-			} else {
-				c.Fail("R2", retried, construct, ret.Pos(), "done=true is returned with an error that is not the API write's own")
-			}
-		default:
-			// done = (werr == nil)
-			ok := false
-			if bo, isB := done.(*ssa.BinOp); isB && bo.Op == token.EQL {
-				x, y := bo.X, bo.Y
-				if eng.IsNilConst(x) {
-					x, y = y, x
-				}
-				if w := ownErr(x); w != nil && eng.IsNilConst(y) && latest(w, ret) && (eng.IsNilConst(errv) || ownErr(errv) == w) {
-					ok = true
-				}
-			}
-			if ok {
-				c.Pass("R2", retried, construct, ret.Pos(), "done = (API error == nil)")
-			} else {
-				c.Undecided("R2", retried, construct, ret.Pos(), "done is neither a constant nor `apiErr == nil` of the last API write")
+		// One attempt is decided by forcing: the outcome of every API write the attempt may
+		// perform is fixed (nil / non-nil, all combinations) and the paths of the retried function
+		// — through the same-package helpers it calls — are enumerated. wait.ExponentialBackoff
+		// stops with success only on (done, nil); so on every path that can return done with an
+		// error not known to be non-nil, the LAST API write executed on the path must have been
+		// fixed to succeed. `return true, nil` after a conflict, `done` taken from the error of
+		// a write that is not the last one, or an attempt that writes nothing all violate it.
+		writes := c19APIWritesOf(retried, isAPIWrite)
+		var rets []*ssa.Return
+		for _, b := range retried.Blocks {
+			if ret, ok := b.Instrs[len(b.Instrs)-1].(*ssa.Return); ok && b != retried.Recover {
+				rets = append(rets, ret)
 			}
 		}
-	}
-	if n == 0 {
-		c.Fail("R2", retried, "return: done ⇒ the API write's own outcome", retried.Pos(), "no return found")
-	}
-	// createOrUpdate hands the backoff's verdict to its caller
-	ok := false
-	nRet := 0
-	for _, b := range cu.Blocks {
-		if ret, isRet := b.Instrs[len(b.Instrs)-1].(*ssa.Return); isRet {
-			nRet++
-			ok = c19ErrMatcher(backoff)(c13Returned(ret, c13ErrIdx(cu)))
-			if !ok {
+		if len(rets) == 0 {
+			c.Fail("R2", retried, "return: done ⇒ the API write's own outcome"+sfx, retried.Pos(), "no return found")
+		}
+		if len(writes) == 0 || len(writes) > 6 {
+			c.Undecided("R2", retried, "retried function"+sfx, retried.Pos(), fmt.Sprintf("%d API writes in one attempt: cannot enumerate their outcomes", len(writes)))
+			continue
+		}
+		bad := map[ssa.Instruction]string{}
+		reached := map[ssa.Instruction]bool{}
+		undecided := ""
+		for mask := 0; mask < 1<<uint(len(writes)); mask++ {
+			outcome := map[*ssa.Call]bool{}
+			for i, w := range writes {
+				outcome[w] = mask&(1<<uint(i)) != 0
+			}
+			in := &eng.Interp{W: c.W, Depth: eng.LiftDepth, PinCall: c19PinErrors(outcome)}
+			paths, err := in.Run(retried, nil)
+			if err != nil {
+				undecided = err.Error()
 				break
 			}
+			for _, pr := range paths {
+				if pr.Panicked {
+					continue
+				}
+				if pr.LoopCut || pr.Exit == nil || len(pr.Ret) != 2 {
+					undecided = "an attempt contains a loop: its paths cannot be enumerated"
+					continue
+				}
+				reached[pr.Exit] = true
+				if pr.Ret[0].IsBool(false) || pr.Ret[1].K == eng.NonNilV {
+					continue // retried, or given up with an error
+				}
+				var last *ssa.Call
+				for _, ci := range pr.Calls {
+					if call, ok := ci.(*ssa.Call); ok && isAPIWrite(ci) {
+						last = call
+					}
+				}
+				switch {
+				case last == nil:
+					bad[pr.Exit] = "done can be reported on a path that performs no API write"
+				case outcome[last]:
+					bad[pr.Exit] = "done can be reported with a nil error although the last API write of the attempt (" + shortName(eng.FullName(last)) + ") failed: the retry loop stops and createOrUpdate reports success although nothing was persisted (e.g. `return true, nil` after a conflict)"
+				}
+			}
 		}
+		for n, ret := range rets {
+			construct := fmt.Sprintf("return#%d: done ⇒ the API write's own outcome%s", n+1, sfx)
+			switch {
+			case bad[ret] != "":
+				c.Fail("R2", retried, construct, ret.Pos(), bad[ret])
+			case !reached[ret]:
+				if undecided == "" {
+					undecided = "no enumerated path ends in this return"
+				}
+				c.Undecided("R2", retried, construct, ret.Pos(), undecided)
+			default:
+				c.Pass("R2", retried, construct, ret.Pos(), "on every path: not done, a non-nil error, or the last API write succeeded")
+			}
+		}
+		// the function holding the retry hands the backoff's verdict to its caller
+		ok := false
+		nRet := 0
+		for _, b := range cu.Blocks {
+			if ret, isRet := b.Instrs[len(b.Instrs)-1].(*ssa.Return); isRet && b != cu.Recover {
+				nRet++
+				ok = c19ErrMatcher(backoff)(c13Returned(ret, c13ErrIdx(cu)))
+				if !ok {
+					break
+				}
+			}
+		}
+		c.Check("R2", cu, "createOrUpdate returns the retry helper's error"+sfx, backoff.Pos(), ok && nRet > 0, "every return of createOrUpdate must carry the error of the retry helper (timeout after conflicts, API error); dropping it acknowledges an unwritten condition")
 	}
-	c.Check("R2", cu, "createOrUpdate returns the retry helper's error", backoff.Pos(), ok && nRet > 0, "every return of createOrUpdate must carry the error of the retry helper (timeout after conflicts, API error); dropping it acknowledges an unwritten condition")
 }
 
 // ---- R3 ---------------------------------------------------------------------------------
@@ -600,7 +897,7 @@ func c19ChainTolerance(chain []c19Hop, pred func(ssa.CallInstruction) bool) (tol
 		kept = kept && k
 		var perf []ssa.Instruction
 		for _, ci := range eng.Calls(h.In) {
-			if x, ok := ci.(*ssa.Call); ok && (x == h.Call || c13Performs(ci, pred, 3)) {
+			if x, ok := ci.(*ssa.Call); ok && (x == h.Call || c19Performs(eng.Current, ci, pred, 3)) {
 				perf = append(perf, x)
 			}
 		}
@@ -927,23 +1224,24 @@ func c19R6(c *eng.Ctx, storeIface *types.Interface) {
 		if fn == nil {
 			continue
 		}
-		errIdx := c13ErrIdx(fn)
+		// the Save may sit in the method or in a helper that is part of it (Region); the gate is
+		// decided level by level up to the method and reported against the method
+		region := map[*ssa.Function]bool{}
 		n := 0
-		for _, ci := range eng.Calls(fn) {
-			w, ok := ci.(*ssa.Call)
-			if !ok || !c13IfaceCall(ci, storeIface, "Save") {
-				continue
-			}
-			n++
-			why := c19ErrorGates(c, fn, w, func(x ssa.Instruction) bool {
-				ret, ok := x.(*ssa.Return)
-				if !ok {
-					return false
+		fns := c.W.Region(fn)
+		for _, f := range fns {
+			region[f] = true
+		}
+		for _, f := range fns {
+			for _, ci := range eng.Calls(f) {
+				w, ok := ci.(*ssa.Call)
+				if !ok || !c13IfaceCall(ci, storeIface, "Save") {
+					continue
 				}
-				ev := c13Returned(ret, errIdx)
-				return ev != nil && eng.IsNilConst(ev)
-			}, "a nil-error return")
-			c.Check("R6", fn, fmt.Sprintf("Save#%d: acknowledged only when persisted", n), w.Pos(), why == "", c13Why("the caller (gateway / controller queue) is told success only if the store accepted the condition", why))
+				n++
+				why := c19AckGate(c, fn, region, w, eng.LiftDepth)
+				c.Check("R6", fn, fmt.Sprintf("Save#%d: acknowledged only when persisted", n), w.Pos(), why == "", c13Why("the caller (gateway / controller queue) is told success only if the store accepted the condition", why))
+			}
 		}
 		if n == 0 {
 			c.Fail("R6", fn, "Save: acknowledged only when persisted", fn.Pos(), "no LimitStore.Save found")
@@ -1002,6 +1300,9 @@ func badLocalFirst() error {
 	if err != nil { return err }
 	return nil
 }
+func goodForward() error { return write() }
+func goodForwardWrapped() error { err := write(); return wrap(err) }
+func badForwardLocal() error { err := write(); local(); return err }
 `
 
 func c19Fixtures(c *eng.Ctx) {
@@ -1013,7 +1314,7 @@ func c19Fixtures(c *eng.Ctx) {
 	for _, t := range []struct {
 		name string
 		want bool
-	}{{"good", true}, {"goodNested", true}, {"goodSwitch", true}, {"goodDefer", true}, {"badIgnored", false}, {"badLogged", false}, {"badNilReturn", false}, {"badLocalFirst", false}} {
+	}{{"good", true}, {"goodNested", true}, {"goodSwitch", true}, {"goodDefer", true}, {"badIgnored", false}, {"badLogged", false}, {"badNilReturn", false}, {"badLocalFirst", false}, {"goodForward", true}, {"goodForwardWrapped", true}, {"badForwardLocal", false}} {
 		fn := p.Func(t.name)
 		got := false
 		for _, ci := range eng.CallsTo(fn, "fx.write") {
